@@ -81,6 +81,7 @@ type Hist struct {
 	c     Case
 	stats map[string]int
 	inProbe bool
+	past    map[string][][]byte // earlier contents of each path (to return to an earlier state)
 }
 
 var defaultComponents = []string{"a", "b", "d", "ad", "d-old", "lib", "lib.go", "lib-old", "lib0", "test", "test.c", "test-data",
@@ -205,6 +206,12 @@ func (h *Hist) W(op, path string, data []byte) {
 		}
 		if err := os.WriteFile(p, data, 0o666); err != nil {
 			return
+		}
+		if h.past == nil {
+			h.past = map[string][][]byte{}
+		}
+		if n := len(h.past[path]); n == 0 || string(h.past[path][n-1]) != string(data) {
+			h.past[path] = append(h.past[path], data)
 		}
 	case "rm":
 		if st, err := os.Stat(p); err != nil || st.IsDir() {
@@ -447,6 +454,19 @@ func (h *Hist) step() {
 			}
 		}
 		h.W("write", p, h.content())
+	case "write-old":
+		// return a file to a content it had before (histories that revisit an earlier snapshot)
+		var ks []string
+		for k, v := range h.past {
+			if len(v) > 1 {
+				ks = append(ks, k)
+			}
+		}
+		sort.Strings(ks)
+		if len(ks) > 0 {
+			k := ks[r.intn(len(ks))]
+			h.W("write", k, h.past[k][r.intn(len(h.past[k])-1)])
+		}
 	case "rewrite-same":
 		if f, ok := h.pickFile(); ok {
 			h.W("write", f, h.obs.Files[f])
